@@ -86,6 +86,21 @@ CLAIMED['C04'] = dict(
          '(scoping) is C02\'s subject and is exercised here by generated properties only.',
     technique='Lean 4 proof (completeness of the constructor model w.r.t. a declarative typing, sound executable hypothesis check) + type-directed generation from random schemas')
 
+CLAIMED['C19'] = dict(
+    text='Lean 4 theorems over the model of hpl.cli.main (cliMain: parser model + serialiser model): exit status 0 iff the argument parses '
+         '(cli_exit_zero_iff), 0 or 1 otherwise (cli_exit_01); a JSON document is written iff -o json was given and the status is 0 '
+         '(cli_json_iff) and it is the image of the AST the parser returns (cli_json_is_ast); every object carries exactly the attrs fields of '
+         'its class in declaration order (expr_fields ... sig_fields against table G9, regenerated from attrs.fields of the classes), enums are '
+         'printed as their current values (G8_enum_values), non-finite literal values and the unbounded max_time are null (nonfinite_null, '
+         'unbounded_null); the JSON value type of the model has no non-finite numbers. The implementation is run in process and as a real '
+         'process; its output is parsed by a strict JSON parser (no NaN/Infinity, no duplicate keys) and compared with the model and with an '
+         'independent attrs.fields walk of the AST.',
+    design_ref='DESIGN.md §6 C19',
+    note='Trusted: Lean kernel and standard axioms; extract_tables.py (G8, G9); the parser model (tied by C01/C07/C18 streams); json.dumps, '
+         'attrs.asdict, argparse, file reading and process exit are modelled, not verified (file content / unreadable file is a parameter of '
+         'the model); argparse usage errors (exit status 2) are outside the statement.',
+    technique='Lean 4 proof (exit/JSON decision logic, field-for-field table obligations) + CLI correspondence with strict JSON parsing and an independent serialisation')
+
 CLAIMED['C02'] = dict(
     text='Lean 4 theorems: sanityCheck (the model of HplProperty.sanity_check, threading the tuple of available aliases exactly as the four '
          '_check_* helpers do) accepts exactly the WellScoped scope/pattern pairs (declarative judgement over free references and aliases per '
